@@ -2,9 +2,11 @@
 """eval_seed.py <ID> <A|B> [check ids...]: confirm a seeded change produced by a sub-agent (demo passes without / fails with it,
 existing suite passes with it), run the property's check(s) against a private patched copy, and store the result under /verif/seeded/."""
 import json, os, re, shutil, subprocess, sys
-pid, letter = sys.argv[1], sys.argv[2]
+tag, letter = sys.argv[1], sys.argv[2]   # tag = C01 or C01r2 (second round)
+pid = tag[:3]
+rnd = tag[3:].replace("r", "")
 checks = sys.argv[3:] or [pid]
-out = f"/tmp/seed/{pid}.out"
+out = f"/tmp/seed/{tag}.out"
 diff = f"{out}/{letter}.diff"
 demo = f"{out}/{letter}_demo_test.go"
 meta = json.load(open(f"{out}/{letter}.meta.json"))
@@ -21,7 +23,7 @@ extra = []
 if "-tags" in cmd:
     t = re.search(r"-tags[= ]+(\S+)", cmd).group(1); extra += ["-tags", t]
 if "-race" in cmd: extra += ["-race"]
-print(f"== {pid}-{letter}: module={mod} pkg={pkg} run={run} extra={extra}")
+print(f"== {pid}-{letter}{rnd}: module={mod} pkg={pkg} run={run} extra={extra}")
 r = subprocess.run(["/verif/tools/confirm_seed.sh", diff, demo, mod, pkg, run] + extra, capture_output=True, text=True)
 print(r.stdout.strip()[-1500:])
 confirmed = r.returncode == 0
@@ -34,7 +36,7 @@ for c in checks:
         results[c + ":" + tier] = {"caught": caught, "first": [l[:400] for l in lines[:3]]}
         print(f"   check {c} {tier}: {'CAUGHT' if caught else 'missed'}")
         for l in lines[:2]: print("      " + l[:300])
-dst = f"/verif/seeded/{pid}-{letter}"
+dst = f"/verif/seeded/{pid}-{letter}{rnd}"
 os.makedirs(dst, exist_ok=True)
 shutil.copy(diff, dst + "/patch.diff")
 shutil.copy(demo, dst + "/demo_test.go")
